@@ -53,9 +53,15 @@ def evaluate(ctx, recs, outs, env, stats):
     terms = []
     for r in recs:
         n = len(r.steps)
-        injs = [("F", i) for i in range(n)] + [("S", i) for i in range(n)] + [("R", i) for i in range(n)]
+        # predictions are evaluated only for the injection kinds used with this recording
+        if r.set == "all-fs":
+            injs = [("R", i) for i in range(n)]
+        elif r.set:
+            injs = [("F", i) for i in range(n)]
+        else:
+            injs = [("F", i) for i in range(n)] + [("S", i) for i in range(n)]
         terms.append(cl.report_term(r, injs))
-        terms.append(cl.follow_term(r, list(range(n))))
+        terms.append(cl.follow_term(r, list(range(n)) if r.set != "all-fs" else []))
         terms.append(cl.pre_term(r))
     vals = common.coq_eval("c04", cl.IMPORTS, terms, batch=1)
     pred = {}
@@ -68,8 +74,10 @@ def evaluate(ctx, recs, outs, env, stats):
             common.corr_break(ctx, "Corr.CheckCommit.pre_check (the hypotheses commit_pre / same_type of the C04 / C05 theorems hold on the abstracted real pre-state)",
                               {"input": {"scenario": r.scn.name}, "commit_pre_b": pre[0], "same_type_b": pre[1]})
         n = len(r.steps)
-        pred[id(r)] = {"perm": rep[0], "trace": rep[1], "final": rep[2], "align": rep[3],
-                       "F": rep[4][:n], "S": rep[4][n:2 * n], "R": rep[4][2 * n:], "follow": follow}
+        pr = rep[4]
+        pred[id(r)] = {"perm": rep[0], "trace": rep[1], "final": rep[2], "align": rep[3], "follow": follow,
+                       "F": pr[:n] if r.set != "all-fs" else [], "S": pr[n:2 * n] if not r.set else [],
+                       "R": pr if r.set == "all-fs" else []}
         inp = {"scenario": r.scn.name, "command": r.scn.final("<w>")}
         ctx.count(("rec", r.scn.name, r.set), nontrivial=True,
                   sample={"scenario": r.scn.name, "calls": n, "model_log_covers": rep[0], "trace_equal": rep[1], "final_tree_equal": rep[2]})
@@ -105,7 +113,7 @@ def evaluate(ctx, recs, outs, env, stats):
                                                           "afterwards": o["follow"], "retry_detail": o.get("retry_detail")},
                                              "expected": "; ".join(m for _, m in verdict)})
             continue
-        if midx is None:
+        if midx is None or midx >= len(p[o["kind"]]):
             stats["not_aligned"] = stats.get("not_aligned", 0) + 1
             continue
         obs = (cl.CLS_NO[o["cls"]], 0 if o["rc"] == 0 else 1)
@@ -114,7 +122,7 @@ def evaluate(ctx, recs, outs, env, stats):
             common.corr_break(ctx, "Corr.CheckCommit.predict_obs (outcome class of the model at the aligned position vs the real run)",
                               {"input": case_input(o), "observed": {"class,status": obs, "stderr": o["stderr"]}, "model": model})
             continue
-        if o["kind"] == "F" and "retry_rc0" in o:
+        if o["kind"] == "F" and "retry_rc0" in o and midx < len(p["follow"]):
             f = p["follow"][midx]
             mr = (f[0], f[1])
             mz = f[2]
@@ -129,17 +137,24 @@ def evaluate(ctx, recs, outs, env, stats):
 
 
 def read_jobs(ctx, rrecs):
-    """error injection into the non-mutating calls on the object root and the staged object, from the lock to the unlock"""
+    """error injection into the non-mutating calls on the object root and the staged object, from the lock to the unlock.
+    quick: in the fully enumerated scenarios every third call, but always the listing of an object root (find_files) and
+    the stat calls below the staged head content directory (rm_orphaned_files); a fifth elsewhere"""
     jobs = []
     n = 0
     for r in rrecs:
-        every = (r.scn.kind, r.scn.layout, r.scn.ext) in cl.READ_ALL or not ctx.quick()
+        full = (r.scn.kind, r.scn.layout, r.scn.ext) in cl.READ_ALL
+        w = r.w
+        roots = (cl.main_root(w, r.scn), cl.staged_root(w, r.scn))
         for rp in r.reads:
             if not 2 <= rp["next"] < len(r.steps):
                 continue
             n += 1
-            if every or n % 3 == 0:
-                jobs.append((r, "F", rp["next"], ["EIO", "EACCES"][n % 2], rp["point"]))
+            pinned = full and ((rp["name"] == "getdents64" and rp["path"] in roots)
+                               or (rp["name"] in ("statx", "newfstatat", "stat", "lstat") and "/content" in rp["path"][len(roots[1]):]
+                                   and rp["path"].startswith(roots[1])))
+            if not ctx.quick() or pinned or (full and n % 3 == 0) or (not full and n % 5 == 0):
+                jobs.append((r, "F", rp["next"], ["EIO", "EACCES"][(n // 2) % 2], rp["point"]))
     return jobs
 
 
@@ -152,16 +167,21 @@ def make_jobs(ctx, recs, wrecs):
             n += 1
             for e in errs:
                 jobs.append((r, "F", i, e, None))
-            jobs.append((r, "S", i, None, None))
+            if not ctx.quick() or r.scn.kind in ("new", "version") or n % 3 == 0:      # quick: a stop request before every third call elsewhere
+                jobs.append((r, "S", i, None, None))
     for r in wrecs:
-        for i, pt in cl.sample_write_points(ctx, r, per_file=2 if ctx.quick() else 6):
+        for i, pt in cl.sample_write_points(ctx, r, per_file=1 if ctx.quick() else 6):
             jobs.append((r, "F", i, cl.ERRNOS[n % 3], pt))
             n += 1
     return jobs
 
 
 def run(ctx):
+    import time
+    tm = {}
+    t_ = time.time()
     proof = common.proof_stage(ctx)
+    tm["proof_stage"] = round(time.time() - t_, 1)
     common.build_rocfl_release()
     ok, log = common.coq_make(["theories/Corr/CheckCommit.vo"])
     if not ok:
@@ -179,10 +199,16 @@ def run(ctx):
         s.name += "-r"
     rrecs = cl.prepare(ctx, env, rscn, set_="all-fs", workers=workers)
     jobs = make_jobs(ctx, recs, wrecs) + read_jobs(ctx, rrecs)
+    tm["templates_and_recordings"] = round(time.time() - t_ - tm["proof_stage"], 1)
+    t1 = time.time()
     with concurrent.futures.ThreadPoolExecutor(max_workers=workers) as ex:
         outs = list(ex.map(lambda j: (j[0], cl.run_case(j[0], env, j[1], j[2], j[3], point=j[4], set_=j[0].set)), jobs))
+    tm["injected_runs"] = round(time.time() - t1, 1)
+    t1 = time.time()
     stats = {}
     evaluate(ctx, recs + wrecs + rrecs, outs, env, stats)
+    tm["coq_evaluation_and_verdicts"] = round(time.time() - t1, 1)
+    ctx.coverage["timing_s"] = tm
     ctx.coverage["scenarios"] = [r.scn.name for r in recs + wrecs + rrecs]
     ctx.coverage["read_fault_points"] = sum(1 for j in jobs if j[0].set == "all-fs")
     ctx.coverage["injection_points"] = sum(len(r.steps) for r in recs)
@@ -197,7 +223,7 @@ def run(ctx):
     ]
     return common.finish_with_proof(ctx, proof,
         rule="scenarios = commit kinds x layouts 0004/0002 x default/external staging (quick: 10 + 4 at write granularity); every call of the "
-             "fault-free recording is failed with EIO/ENOSPC/EACCES (quick: one errno per call, rotating) and hit by SIGINT; read calls on both object roots with EIO/EACCES; distinct = "
+             "fault-free recording is failed with EIO/ENOSPC/EACCES (quick: one errno per call, rotating) and hit by SIGINT (quick: every call of the new / version scenarios, every third elsewhere); read calls on both object roots with EIO/EACCES; distinct = "
              "(scenario, injection, call hit, outcome class, exit status); every run is non-trivial")
 
 
